@@ -7,6 +7,7 @@ function `base + per * iteration`.  (Loop-level theorems are added from `Proofs/
 import Compass.Proofs.Num
 import Compass.Model.Instance
 import Compass.Proofs.SearchLimits
+import Compass.Proofs.Build
 
 namespace Compass
 namespace C10
@@ -126,6 +127,146 @@ theorem success_monotone_in_limits (c : Config α) (m₂ : TermM)
   config_success_monotone c m₂ hmono h
 
 end
+
+/-! ### The limits in force are the ones the configuration states
+
+`TerminationModelBuilder::build` turns the `[termination]` section into the model the loop consults.
+A limit that the builder silently changed would bound nothing: a negative limit cast to an
+unsigned integer is a limit near 2^64, hours whose seconds overflow wrap to a short budget, and a
+check frequency of zero makes `iteration % frequency` panic in every search.  All three are refused;
+everything the builder accepts is the configured number. -/
+
+section
+open Build SearchLimits
+
+/-- a model the builder returns never makes a search panic on its check frequency, at any counters -/
+theorem built_model_never_divides_by_zero (j : Json) (t : TermM) (h : termBuild j = .ok t) (sz it : Nat) :
+    t.test sz it ≠ .error (.panic "termination-frequency-zero") := by
+  intro hp
+  exact termOfJson_no_zeroFreq _ j t h ((test_panic_iff t sz it).1 hp)
+
+/-- the recursion over nested `combined` sections always has fuel left: the answer is a model or one
+of the configuration errors -/
+theorem builder_total (j : Json) : termBuild j ≠ .error .fuel :=
+  termOfJson_fuel _ j (Nat.le_succ _)
+
+/-- a count (`limit` of iterations / solution_size, `frequency`) is accepted exactly when the field
+holds an integer `0 ≤ z < 2^63`, and is then that integer; a negative one is refused -/
+theorem count_read_exactly (j : Json) (key : String) :
+    (∀ n, getCount j key = .ok n ↔ ∃ v z, j.get? key = some v ∧ i64OfJson v = some z ∧ 0 ≤ z ∧ n = z.toNat) ∧
+    (∀ v z, j.get? key = some v → i64OfJson v = some z → z < 0 → getCount j key = .error .value) :=
+  ⟨getCount_ok_iff j key, getCount_negative j key⟩
+
+/-- section by section (`type` is matched case-insensitively): the three limits hold the configured
+numbers, a runtime limit the parsed duration in whole seconds and a frequency of at least 1, a
+`combined` section the models of its sub-sections in order; an unknown `type`, a missing one and one
+that is not a string are errors -/
+theorem builder_sections (fuel : Nat) (j : Json) :
+    (∀ e, getString j "type" = .error e → termOfJson (fuel + 1) j = .error e ∧ (e = .missing ∨ e = .type)) ∧
+    (∀ ty, getString j "type" = .ok ty →
+      (lowerChars ty = "iterations".toList → termOfJson (fuel + 1) j =
+        match getCount j "limit" with | .error e => .error e | .ok n => .ok (.iters n)) ∧
+      (lowerChars ty = "solution_size".toList → termOfJson (fuel + 1) j =
+        match getCount j "limit" with | .error e => .error e | .ok n => .ok (.size n)) ∧
+      (lowerChars ty = "combined".toList → termOfJson (fuel + 1) j =
+        match getArray j "models" with
+        | .error e => .error e
+        | .ok ms => match termsOfJson fuel ms with | .error e => .error e | .ok ts => .ok (.combined ts)) ∧
+      (lowerChars ty = "query_runtime".toList → ∀ t, termOfJson (fuel + 1) j = .ok t →
+        ∃ l s secs f, j.get? "limit" = some l ∧ l.asStr? = some s ∧ parseDuration s = some secs ∧
+          getCount j "frequency" = .ok f ∧ 1 ≤ f ∧ t = .runtime (secs * 1000000000) f 0 0) ∧
+      (lowerChars ty ≠ "iterations".toList → lowerChars ty ≠ "solution_size".toList → lowerChars ty ≠ "combined".toList →
+        lowerChars ty ≠ "query_runtime".toList → termOfJson (fuel + 1) j = .error .unknown)) := by
+  constructor
+  · intro e he
+    refine ⟨by simp [termOfJson, he], ?_⟩
+    unfold getString at he
+    split at he
+    · injection he with he; exact Or.inl he.symm
+    · split at he
+      · cases he
+      · injection he with he; exact Or.inr he.symm
+  · intro ty hty
+    refine ⟨fun h => ?_, fun h => ?_, fun h => ?_, fun h t ht => ?_, fun h1 h2 h3 h4 => ?_⟩
+    · simp only [termOfJson, hty, h]
+      rw [if_neg (by decide), if_pos (by decide)]
+      cases getCount j "limit" <;> rfl
+    · simp only [termOfJson, hty, h]
+      rw [if_neg (by decide), if_neg (by decide), if_pos (by decide)]
+      cases getCount j "limit" <;> rfl
+    · simp only [termOfJson, hty, h]
+      rw [if_neg (by decide), if_neg (by decide), if_neg (by decide), if_pos (by decide)]
+      cases getArray j "models" with
+      | error e => rfl
+      | ok ms => simp only [termsOfJson]; cases allOk (termOfJson fuel) ms <;> rfl
+    · simp only [termOfJson, hty, h] at ht
+      rw [if_pos (by decide)] at ht
+      split at ht
+      · cases ht
+      · rename_i l hl
+        split at ht
+        · cases ht
+        · rename_i s hs
+          split at ht
+          · cases ht
+          · rename_i secs hsecs
+            split at ht
+            · cases ht
+            · rename_i f hf
+              split at ht
+              · cases ht
+              · rename_i hf0
+                injection ht with ht
+                exact ⟨l, s, secs, f, hl, hs, hsecs, hf, Nat.one_le_iff_ne_zero.2 hf0, ht.symm⟩
+    · simp only [termOfJson, hty, beq_iff_eq]
+      rw [if_neg h4, if_neg h1, if_neg h2, if_neg h3]
+
+/-- a duration is `h:mm:ss` with two-digit minutes and seconds, read as `h·3600 + m·60 + s` seconds —
+the exact number, which must fit `u64`; it is never a wrapped product -/
+theorem duration_read_exactly (s : String) (secs : Nat) (h : parseDuration s = some secs) :
+    secs < 2 ^ 64 ∧ ∃ hs ms ss hv mv sv, splitOnChar ':' s.toList = [hs, ms, ss] ∧
+      ms.length = 2 ∧ ss.length = 2 ∧ natOfDigits hs = some hv ∧ natOfDigits ms = some mv ∧
+      natOfDigits ss = some sv ∧ secs = hv * 3600 + (mv * 60 + sv) := by
+  unfold parseDuration at h
+  split at h
+  · rename_i hs ms ss hsplit
+    split at h
+    · rename_i hlen
+      split at h
+      · rename_i hv mv sv h1 h2 h3
+        split at h
+        · rename_i hb
+          injection h with h
+          subst h
+          exact ⟨hb.2, hs, ms, ss, hv, mv, sv, hsplit, hlen.1, hlen.2, h1, h2, h3, rfl⟩
+        · cases h
+      · cases h
+    · cases h
+  · cases h
+
+end
+
+/-! Non-vacuity (and the witnesses of the repaired builder): sections as a user writes them. -/
+def cfgIter (z : String) : Json := .obj [("type", .str "iterations"), ("limit", .num z 0)]
+def cfgRuntime (limit : String) (freq : String) : Json :=
+  .obj [("type", .str "QUERY_RUNTIME"), ("limit", .str limit), ("frequency", .num freq 0)]
+
+def built (j : Json) : Option (List Nat) := (Build.termBuild j).toOption.map Build.termCode
+def refused (j : Json) : Option Build.BErr := Build.errOf (Build.termBuild j)
+
+example : built (cfgIter "25") = some (Build.termCode (.iters 25)) := by decide
+example : refused (cfgIter "-1") = some .value := by decide
+example : refused (.obj [("type", .str "solution_size"), ("limit", .num "-1" 0)]) = some .value := by decide
+example : built (cfgRuntime "1:01:01" "2") = some (Build.termCode (.runtime 3661000000000 2 0 0)) := by decide +kernel
+example : refused (cfgRuntime "0:00:05" "0") = some .value := by decide
+example : refused (cfgRuntime "0:00:05" "-1") = some .value := by decide
+example : refused (cfgRuntime "5124095576030432:00:00" "1") = some .duration := by decide +kernel
+example : refused (cfgRuntime "1:2:3" "1") = some .duration := by decide
+example : built (.obj [("type", .str "combined"), ("models", .arr [cfgIter "3",
+    .obj [("type", .str "combined"), ("models", .arr [cfgRuntime "0:00:10" "4"])]])]) =
+    some (Build.termCode (.combined [.iters 3, .combined [.runtime 10000000000 4 0 0]])) := by decide +kernel
+example : refused (.obj [("type", .str "iteration"), ("limit", .num "3" 0)]) = some .unknown := by decide
+example : refused (.obj [("limit", .num "3" 0)]) = some .missing := by decide
 
 /-! ### Non-vacuity -/
 example : (TermM.iters 3).test 0 2 = .ok () := by decide
